@@ -652,48 +652,51 @@ def rules(rep, m):
         r4.fail()
     else:
         r4.ok()
+    # geometry: every function that stores heap_size leaves heap_size = 2^heap_exp_cur and hash_size = 2 * heap_size behind,
+    # and grow raises the exponent by exactly one.  Decided by evaluating the stores in order (engine LAU: exact
+    # polynomials, 1 << (e + c) is 2^c times the symbol 2^e), so the spelling - temporaries, order, ++ or + 1, << or * - is free.
+    from ..engines.laurent import LP, Formula, pow2
+    writers = []
     for f, lhs, rhs, kind, node in inv.field_writers(m, "cmi_hashheap", "heap_size"):
-        cx = FuncCtx(m, f)
-        base = cx.canon(kids(strip(lhs, casts=True))[0])
-        hs = [cx.canon(r) for f2, l, r, k, n in inv.field_writers(m, "cmi_hashheap", "hash_size") if f2 is f]
-        r4.instance("%s writes heap_size = %s, hash_size = %s" % (f.name, cx.canon(rhs), hs))
-        # values spelled through a local or a parameter that the same function stores into the fields are the fields
-        hs_raw = cx.canon(rhs)
-        exps = [cx.canon(r) for f2, l, r, k, n in inv.field_writers(m, "cmi_hashheap", "heap_exp_cur") if f2 is f and r is not None]
-        def as_fields(t):
-            if hs_raw != base + "->heap_size" and len(hs_raw) > 3:
-                t = t.replace(hs_raw, base + "->heap_size")
-            for e_ in exps:
-                if re.fullmatch(r"\w+", e_):
-                    t = re.sub(r"(?<![\w>.])%s(?!\w)" % re.escape(e_), base + "->heap_exp_cur", t)
-            return t
-        hs = [as_fields(h) for h in hs]
-        hsz = re.escape(base) + "->heap_size"
-        ok = any(re.fullmatch(r"\((2 \* %s|%s \* 2|%s << 1|%s \+ %s)\)" % (hsz, hsz, hsz, hsz, hsz), h) for h in hs)
-        if not ok:
-            rep.finding(r4, f.name, "hash-size", "%s sets heap_size but hash_size = %s (must be 2 * heap_size)"
-                        % (f.name, hs), where=m.rel(loc(node)))
+        if f not in writers:
+            writers.append(f)
+    for f in writers:
+        hpn = f.params[0]["name"]
+        E = LP.sym("E")
+        P = LP.sym("2^E")
+        entry = {"heap_exp_cur": E, "heap_size": P, "hash_size": P.scale(2), "heap_exp_init": LP.sym("E0"), "heap_count": LP.sym("N"),
+                 "item_counter": LP.sym("K")}
+        scal = {p_["name"]: LP.sym(p_["name"]) for p_ in f.params[1:] if "*" not in (p_.get("type") or "") and "(" not in (p_.get("type") or "")}
+        F = Formula(m, f, {hpn: dict(entry)}, scal, opaque_fields=("heap", "hash_map", "heap_compare", "cookie"), lenient=True)
+        F.positive = []
+        F.run()
+        e1, hs1, hh1 = F.store.get((hpn, "heap_exp_cur")), F.store.get((hpn, "heap_size")), F.store.get((hpn, "hash_size"))
+        r4.instance("%s leaves heap_exp_cur = %s, heap_size = %s, hash_size = %s" % (f.name, e1.show() if e1 is not None else "?",
+                                                                                  hs1.show() if hs1 is not None else "?", hh1.show() if hh1 is not None else "?"))
+        if e1 is None or hs1 is None or hh1 is None:
+            raise AnalysisBroken("%s: heap geometry not evaluated" % f.name)
+        if (hh1 - hs1.scale(2)) != LP():
+            rep.finding(r4, f.name, "hash-size", "%s sets heap_size = %s but hash_size = %s (must be 2 * heap_size)"
+                        % (f.name, hs1.show(), hh1.show()), where=m.rel(f.where))
             r4.fail()
         else:
             r4.ok()
-        hs_norm = hs_raw
-        for e_ in exps:
-            if re.fullmatch(r"\w+", e_):
-                hs_norm = re.sub(r"(?<![\w>.])%s(?!\w)" % re.escape(e_), base + "->heap_exp_cur", hs_norm)
-        if not re.fullmatch(r"\(1 << %s->heap_exp_cur\)" % re.escape(base), hs_norm):
-            rep.finding(r4, f.name, "heap-size-power", "heap_size = %s is not 1 << heap_exp_cur (hash function "
-                        "shifts by heap_exp_cur + 1)" % cx.canon(rhs), where=m.rel(loc(node)))
+        want = pow2(e1)
+        if want is None or (hs1 - want) != LP():
+            rep.finding(r4, f.name, "heap-size-power", "heap_size = %s is not 1 << heap_exp_cur with heap_exp_cur = %s (hash function "
+                        "shifts by heap_exp_cur + 1)" % (hs1.show(), e1.show()), where=m.rel(f.where))
             r4.fail()
         else:
             r4.ok()
-    g = hh["hashheap_grow"]
-    gcx = FuncCtx(m, g)
-    incs = [1 for l, r, k, n in inv.stores(g) if gcx.canon(l).endswith("->heap_exp_cur") and k == "++"]
-    if len(incs) != 1:
-        rep.finding(r4, g.name, "grow:exp", "grow does not raise heap_exp_cur by exactly one", where=m.rel(g.where))
-        r4.fail()
-    else:
-        r4.ok()
+        if f.name == "hashheap_grow":
+            if (e1 - E - LP.const(1)) != LP():
+                rep.finding(r4, f.name, "grow:exp", "grow does not raise heap_exp_cur by exactly one (it leaves %s)" % e1.show(),
+                            where=m.rel(f.where))
+                r4.fail()
+            else:
+                r4.ok()
+    if not any(f.name == "hashheap_grow" for f in writers):
+        raise AnalysisBroken("hashheap_grow does not store heap_size")
     # the hash function's shift uses heap_exp_cur + 1 (= log2 hash_size)
     hk = hh.get("hash_key")
     if hk is None:
